@@ -69,7 +69,7 @@ pub fn control_signals_do_not_escape() {
     assert!(matches!(l2.exec(&mut interp), Err(ExecStop::Return(Variable::Int(v))) if v == x));
     // inside a function the return is consumed, whatever loop it came out of
     let lp: Instruction = Loop(iws(ret)).into();
-    let f = Function { ident: None, params: Params(Arc::from(Vec::new())), body: Body::Lang(Arc::from(vec![iws(lp)])), return_type: Type::Int };
+    let f = Function { ident: None, params: Params(Arc::from(Vec::new())), body: Body::Lang(Arc::from(crate::vv![iws(lp)])), return_type: Type::Int };
     assert!(matches!(f.exec(&mut interp), Ok(Variable::Int(v)) if v == x));
     kani::cover!(true);
 }
